@@ -14,6 +14,7 @@ use std::time::{Duration, Instant};
 pub const SECOND_OFFSET: u64 = 1_000_000_000;
 
 pub struct CheckArgs {
+    pub second_fraction: u64,
     /// (executable, profile name) of a second build profile to run a quarter of the budget under
     pub second: Option<(PathBuf, String)>,
     pub prop: String,
@@ -287,7 +288,7 @@ pub fn run_check(fam: &dyn Family, a: &CheckArgs) -> i32 {
     if let Some((exe2, _)) = &a.second {
         // second build profile (release + debug-assertions + overflow-checks): the library's
         // debug_assert!s act as extra in-run invariants. Different scenarios (index offset).
-        second_count = (total / 4).max(1);
+        second_count = (total / a.second_fraction.max(1)).max(1);
         let p2 = run_pass(exe2, a, SECOND_OFFSET, second_count);
         reports.extend(p2.reports);
         dead_scenarios.extend(p2.dead_scenarios);
@@ -415,7 +416,14 @@ pub fn run_check(fam: &dyn Family, a: &CheckArgs) -> i32 {
         let tag: String = tag.chars().take(40).collect();
         let raw = replay_dir.join(format!("{}-{}-{}-{}-{}.raw.json", a.prop, a.seed, idx, sub, tag));
         let min = replay_dir.join(format!("{}-{}-{}-{}-{}.json", a.prop, a.seed, idx, sub, tag));
-        let doc = json!({"violation": {"property": v.property, "oracle": v.oracle, "class": v.class, "message": v.message}, "replay": v.replay});
+        // the binary (build profile) that executed the scenario must also minimise and replay it
+        let second_profile = idx >= SECOND_OFFSET && a.second.is_some();
+        let exe_v: PathBuf = if second_profile { a.second.as_ref().unwrap().0.clone() } else { exe.clone() };
+        let doc = json!({
+            "violation": {"property": v.property, "oracle": v.oracle, "class": v.class, "message": v.message},
+            "build_profile": if second_profile { "relchecks" } else { "release" },
+            "replay": v.replay,
+        });
         std::fs::write(&raw, serde_json::to_string_pretty(&doc).unwrap()).expect("write replay");
         if v.replay["kind"].as_str() == Some("whole_scenario") {
             std::fs::rename(&raw, &min).ok();
@@ -423,7 +431,7 @@ pub fn run_check(fam: &dyn Family, a: &CheckArgs) -> i32 {
             continue;
         }
         // minimise in a child process (isolation), then confirm by replay in a fresh process
-        let st = Command::new(&exe)
+        let st = Command::new(&exe_v)
             .arg("minimise")
             .arg(&raw)
             .arg(&min)
@@ -439,7 +447,7 @@ pub fn run_check(fam: &dyn Family, a: &CheckArgs) -> i32 {
         };
         let mut ok = 0;
         for _ in 0..2 {
-            let st = Command::new(&exe)
+            let st = Command::new(&exe_v)
                 .arg("replay")
                 .arg(&target)
                 .stdout(Stdio::null())
